@@ -181,54 +181,56 @@ def permutePMX (vx vy : List Nat) : M (List Nat × List Nat) :=
 
 def recPMX (g : GSpec) : Op := recPerm permutePMX 1 g
 
-/-! ### Cycle crossover (recombinators.py:960-1009) -/
+/-! ### Cycle crossover (recombinators.py:960-1009)
 
-abbrev Kids := List (Option Nat) × List (Option Nat)
+`cycle_crossover` fills the two children with the recursive `pick(child_id, parent_id, index)`: starting
+from an unvisited position `i` it walks the cycle `i → index_in_p0(p1[i]) → …` and gives child
+`child_id` the items of parent 0 and the other child the items of parent 1 on that cycle. The model
+walks the same cycle iteratively (`orbit`); a cycle that does not close, or an item of one parent that
+the other does not have, is the `KeyError` / unfilled child of the code (`Err.key`). -/
 
-def kidGet (ch : Kids) (cid idx : Nat) : Option Nat :=
-  (if cid = 0 then ch.1 else ch.2).getD idx none
+/-- the position where parent 0 holds the item parent 1 has at `j`. -/
+def cycNext (p0 p1 : List Nat) (j : Nat) : Nat := p0.idxOf (p1.getD j 0)
 
-def kidSet (ch : Kids) (cid idx v : Nat) : Kids :=
-  if cid = 0 then (ch.1.set idx (some v), ch.2) else (ch.1, ch.2.set idx (some v))
+/-- positions on the cycle through `i`, from `j` on (`acc`: already walked); `none`: not closed. -/
+def orbitFrom (p0 p1 : List Nat) (i : Nat) : Nat → Nat → List Nat → Option (List Nat)
+  | 0, _, _ => none
+  | f + 1, j, acc =>
+    let n := cycNext p0 p1 j
+    if n = i then some (j :: acc)
+    else if n < p0.length then orbitFrom p0 p1 i f n (j :: acc)
+    else none
 
-/-- the nested function `pick(child_id, parent_id, index)`; `fuel` bounds the recursion depth. -/
-def cyclePick (p0 p1 : List Nat) : Nat → Nat → Nat → Nat → Kids → Option Kids
-  | 0, _, _, _, _ => none
-  | f + 1, cid, pid, idx, ch =>
-    if (kidGet ch cid idx).isSome then some ch
-    else
-      let self := if pid = 0 then p0 else p1
-      let other := if pid = 0 then p1 else p0
-      match self[idx]?, other[idx]? with
-      | some x, some y =>
-        let ch := kidSet ch cid idx x
-        if self.idxOf y < self.length then
-          match cyclePick p0 p1 f cid pid (self.idxOf y) ch with
-          | some ch => cyclePick p0 p1 f (1 - cid) (1 - pid) idx ch
-          | none => none
-        else none                              -- KeyError
-      | _, _ => none
+def orbit (p0 p1 : List Nat) (i : Nat) : Option (List Nat) := orbitFrom p0 p1 i p0.length i []
+
+/-- `true`: child 0 takes parent 0's item at that position (and child 1 parent 1's). -/
+def assignAll (asg : List (Option Bool)) (o : List Nat) (b : Bool) : List (Option Bool) :=
+  o.foldl (fun a j => a.set j (some b)) asg
 
 /-- `for i in range(size): if children[0][i] is None: child_id = random.choice([0, 1]); pick(...)`. -/
-def cycleLoop (p0 p1 : List Nat) : List Nat → Kids → M Kids
-  | [], ch => pure ch
-  | i :: is, ch =>
-    if (kidGet ch 0 i).isSome then cycleLoop p0 p1 is ch
+def cycleLoop (p0 p1 : List Nat) : List Nat → List (Option Bool) → M (List (Option Bool))
+  | [], asg => pure asg
+  | i :: is, asg =>
+    if (asg.getD i none).isSome then cycleLoop p0 p1 is asg
     else nextIdx .choice 2 >>= fun c =>
-      match cyclePick p0 p1 (2 * p0.length + 2) c 0 i ch with
-      | some ch => cycleLoop p0 p1 is ch
+      match orbit p0 p1 i with
+      | some o => cycleLoop p0 p1 is (assignAll asg o (c == 0))
       | none => fail .key
 
-def allSomeNat : List (Option Nat) → Option (List Nat)
+def allSomeBool : List (Option Bool) → Option (List Bool)
   | [] => some []
-  | some a :: t => (allSomeNat t).map (a :: ·)
+  | some a :: t => (allSomeBool t).map (a :: ·)
   | none :: _ => none
 
+/-- the child that takes parent `p0`'s items where the side is `true`. -/
+def cycleChild (p0 p1 : List Nat) (sides : List Bool) : List Nat :=
+  (List.range p0.length).map (fun j => if sides.getD j false then p0.getD j 0 else p1.getD j 0)
+
 def permuteCycle (vx vy : List Nat) : M (List Nat × List Nat) :=
-  cycleLoop vx vy (List.range vx.length) (List.replicate vx.length none, List.replicate vx.length none) >>= fun ch =>
-    match allSomeNat ch.1, allSomeNat ch.2 with
-    | some c0, some c1 => pure (c0, c1)
-    | _, _ => fail .key
+  cycleLoop vx vy (List.range vx.length) (List.replicate vx.length none) >>= fun asg =>
+    match allSomeBool asg with
+    | some sides => pure (cycleChild vx vy sides, cycleChild vx vy (sides.map (!·)))
+    | none => fail .key
 
 def recCycle (g : GSpec) : Op := recPerm permuteCycle 1 g
 
